@@ -392,6 +392,46 @@ def run_transform(c):
     return out
 
 
+def run_asq(c):
+    """ExprDomain.as_quantity on one class for every quantity name, and the public
+    conversions that re-apply the quantity through it"""
+    import lcapy as L
+    set_flags(c.get('flags', [1, 1, 0]))
+    d, q = c['a']
+    cls = exprclasses[d][q]
+    out = {}
+    if d == 'undefined':
+        x = sym.Symbol('x')
+        mk = lambda: cls(3 + 4 * sym.I * x, var='x')
+    elif d in ('time', 'discrete time'):
+        v = cls(0).var
+        mk = lambda: cls(3 * sym.cos(2 * v))
+    else:
+        v = cls(0).var
+        mk = lambda: cls(3 + 4 * sym.I * (v if v is not None else 1))
+    try:
+        out['src'] = describe(mk())
+    except Exception as e:
+        return {'src': err_kind(e)}
+    for name in QS:
+        out['as:' + name] = attempt(lambda: mk().as_quantity(name))
+    out['magnitude'] = attempt(lambda: mk().magnitude)
+    out['real'] = attempt(lambda: mk().real)
+    out['imag'] = attempt(lambda: mk().imag)
+    if d in ('time', 'fourier', 'angular fourier'):
+        out['HT'] = attempt(lambda: mk().HT(evaluate=False))
+        out['IHT'] = attempt(lambda: mk().IHT(evaluate=False))
+    if d == 'phasor ratio':
+        out['pr_laplace'] = attempt(lambda: mk().laplace())
+        out['pr_s'] = attempt(lambda: mk()(L.s))
+    if d == 'phasor':
+        out['phasor_time'] = attempt(lambda: mk().time())
+        out['phasor_time_phasor'] = attempt(lambda: mk().time().phasor())
+    if d == 'time':
+        out['time_phasor_time'] = attempt(lambda: mk().phasor().time())
+    return out
+
+
 def run_circuit(c):
     import lcapy as L
     set_flags(c.get('flags', [1, 1, 0]))
@@ -408,7 +448,7 @@ def run_circuit(c):
     return out
 
 
-RUN = {'row': run_row, 'unary': run_unary, 'exprmap': run_exprmap, 'meta': run_meta, 'chain': run_chain,
+RUN = {'asq': run_asq, 'row': run_row, 'unary': run_unary, 'exprmap': run_exprmap, 'meta': run_meta, 'chain': run_chain,
        'transform': run_transform, 'circuit': run_circuit}
 
 
